@@ -198,8 +198,10 @@ class SeedScript(object):
         if options.continue_seed or options.progress_file:
             if not options.progress_file:
                 options.progress_file = '.mapproxy_seed_progress'
+            # a dry run does no work: it must not record or discard progress
             progress = ProgressStore(options.progress_file,
-                                     continue_seed=options.continue_seed)
+                                     continue_seed=options.continue_seed,
+                                     read_only=options.dry_run)
 
         if options.reseed_file:
             if not os.path.exists(options.reseed_file):
